@@ -370,6 +370,29 @@ func runC11(w *World, r *Report) {
 		}
 	}
 
+	// the peer-table lock is not held while waiting for peers: a forward is a remote call whose handler needs the peer's own
+	// table lock to forward on; a writer queued on either side (a node joining) closes the cycle and every later item stops here
+	r.rule("no-wait-for-peers-under-the-table-lock", "in package gossip no sync.WaitGroup.Wait runs with a repository lock held — an immediate one where it stands, a deferred one when a lock is held where the defer statement is executed (the deferred Wait runs before the deferred unlock registered ahead of it)", 0)
+	{
+		nWait := 0
+		for _, fn := range w.RepoFuncs("gossip") {
+			instrsOf(fn, func(in ssa.Instruction) {
+				c, ok := in.(ssa.CallInstruction)
+				if !ok || calleeName(c) != "(*sync.WaitGroup).Wait" {
+					return
+				}
+				nWait++
+				held := li.At(in)
+				r.check(held.top || len(held.m) == 0, "no-wait-for-peers-under-the-table-lock", shortFn(fn)+"/WaitGroup.Wait", lineOf(w, in), "the wait for the forwards happens with no lock held",
+					"lockset "+held.String()+": the goroutines waited for are remote calls to peers, whose handlers need their own table lock to forward on — with a writer queued on each side the waits form a cycle that nothing breaks")
+			})
+		}
+		if nWait == 0 {
+			r.ok("no-wait-for-peers-under-the-table-lock", "none", "-", "package gossip waits for no group of goroutines")
+		}
+	}
+
+	// sendToAccountant summary
 	// sendToAccountant summary
 	if f := w.fx(r, "gossip", "gossiper", "sendToAccountant"); f != nil {
 		add := callEdges(f.fn, ").AddLeaf", "errnil", nil)
